@@ -47,7 +47,7 @@ def run(tier, seed):
     seq.gen_script = gen
     try:
         return seq.run_seq_property(res, "c11", CATS, 40, 300, gen_kwargs=GEN, use_oracle=False, extra_check=balance_check,
-                                    extra_scripts=seq.gen_gc_scripts)
+                                    extra_scripts=lambda rng, tier: seq.gen_gc_scripts(rng, tier) + seq.gen_storage_cycle_scripts(rng, tier))
     finally:
         seq.gen_script = old
 
